@@ -30,7 +30,7 @@ func checkC20(c *core.Ctx, r *core.Report) {
 		"(1) ORDERTABLE — every arm of evaluateConditions means exactly `value <op> threshold` for its condition constant (exhaustive truth table over the orderings of the two operands), every condition constant has an arm, and every evaluator decides through it with (value, configured condition, configured threshold) in that order; " +
 		"(2) STATE — in handleAlertCondition the state handed to updateAlertStateAndCreateAlertHistory is Normal exactly on the not-matched edge, Firing exactly where shouldUpdateAlertStateToFiring answered true and Pending where it answered false; a notification is attempted exactly for Firing and Normal; the notification flag stored is the notifier's own answer; the state and one history row are written on every non-error path; " +
 		"(3) WINDOW — shouldUpdateAlertStateToFiring asks for the newest EvalWindow/EvalInterval−1 history rows, answers true only when N==1 or when at least N−1 rows came back and the scan over all of them met no row that is not Pending/Firing; the Limit it passes is provably non-zero (the store substitutes a paging default for 0); " +
-		"(4) NOTIFY — shouldSendNotification answers true only after both the cool-down and the silence tests passed, Normal after Normal/Inactive is suppressed, the send calls are guarded by its answer, and both period tests mean `now − lastSent >= period`. " +
+		"(4) NOTIFY — shouldSendNotification answers true only after both the cool-down and the silence tests passed, Normal after Normal/Inactive is suppressed, the send calls are guarded by its answer, both period tests mean `now − lastSent >= period`, and the notification row's last-sent time and state are written only where the notifier reported a send. " +
 		"Keyed stores (saved queries, dashboards, folders, index aliases, lookup files): " +
 		"(5) PERSIST — every mutation of a mirrored in-memory table is followed on every path to a success return by the store's persist call (or happens only after a successful persist); " +
 		"(6) DROP — a tenant's entry is never dropped from the saved-query table on a path that then persists the tenant's file from that entry; " +
@@ -44,8 +44,153 @@ func checkC20(c *core.Ctx, r *core.Report) {
 	c20StateSkeleton(c, r)
 	c20Window(c, r)
 	c20Notify(c, r)
+	c20NotifyState(c, r)
 	c20Stores(c, r)
 	c20AliasRoles(c, r)
+}
+
+// c20NotifyState: the notification row's last_sent_time / last_alert_state are read by shouldSendNotification as
+// "when and with which state the last notification was SENT"; they may be written only where the caller's
+// notification flag is known true.
+func c20NotifyState(c *core.Ctx, r *core.Report) {
+	top := c.Fn(pkgAlertSql, "Sqlite.UpdateAlertStateAndNotificationDetails")
+	var flag *ssa.Parameter
+	for _, p := range top.Params {
+		if b, ok := p.Type().Underlying().(*types.Basic); ok && b.Kind() == types.Bool {
+			flag = p
+		}
+	}
+	if flag == nil {
+		r.Undecided("GUARD", "alertsqlite.Sqlite.UpdateAlertStateAndNotificationDetails:notification-flag", c.Pos(top.Pos()), "no bool parameter")
+		return
+	}
+	// isFlag: v denotes the notification flag (through closure captures and helper parameters)
+	var isFlag func(v ssa.Value, depth int) bool
+	isFlag = func(v ssa.Value, depth int) bool {
+		if depth > 5 {
+			return false
+		}
+		switch x := v.(type) {
+		case *ssa.Parameter:
+			if x == flag {
+				return true
+			}
+			fn := x.Parent()
+			idx := -1
+			for i, p := range fn.Params {
+				if p == x {
+					idx = i
+				}
+			}
+			sites := c.StaticCallers()[fn]
+			if idx < 0 || len(sites) == 0 {
+				return false
+			}
+			for _, ci := range sites {
+				if !isFlag(ci.Common().Args[idx], depth+1) {
+					return false
+				}
+			}
+			return true
+		case *ssa.FreeVar:
+			fn := x.Parent()
+			idx := -1
+			for i, fv := range fn.FreeVars {
+				if fv == x {
+					idx = i
+				}
+			}
+			if fn.Parent() == nil || idx < 0 {
+				return false
+			}
+			for _, b := range fn.Parent().Blocks {
+				for _, in := range b.Instrs {
+					if mc, ok := in.(*ssa.MakeClosure); ok && mc.Fn == ssa.Value(fn) {
+						return isFlag(mc.Bindings[idx], depth+1)
+					}
+				}
+			}
+		case *ssa.UnOp:
+			// captured by reference: *fv
+			if x.Op == token.MUL {
+				return isFlag(x.X, depth+1)
+			}
+		case *ssa.Alloc:
+			// the parameter spilled to a cell because a closure captures it
+			if refs := x.Referrers(); refs != nil {
+				for _, rf := range *refs {
+					if st, ok := rf.(*ssa.Store); ok && st.Addr == ssa.Value(x) {
+						return isFlag(st.Val, depth+1)
+					}
+				}
+			}
+		}
+		return false
+	}
+	// guarded: the instruction executes only where the flag is known true
+	var guarded func(in ssa.Instruction, depth int) bool
+	guarded = func(in ssa.Instruction, depth int) bool {
+		if depth > 4 {
+			return false
+		}
+		fn := in.Parent()
+		for b := in.Block(); b != nil && b.Idom() != nil; b = b.Idom() {
+			idom := b.Idom()
+			ifi, ok := core.LastIf(idom)
+			if !ok || idom.Succs[0] != b || len(b.Preds) != 1 {
+				continue
+			}
+			if isFlag(ifi.Cond, 0) {
+				return true
+			}
+		}
+		// not guarded here: every caller must be
+		sites := c.StaticCallers()[fn]
+		if fn.Parent() != nil {
+			// a closure: the place where it is created stands for its call
+			for _, b := range fn.Parent().Blocks {
+				for _, x := range b.Instrs {
+					if mc, ok := x.(*ssa.MakeClosure); ok && mc.Fn == ssa.Value(fn) {
+						return guarded(mc, depth+1)
+					}
+				}
+			}
+			return false
+		}
+		if len(sites) == 0 {
+			return false
+		}
+		for _, ci := range sites {
+			if !guarded(ci, depth+1) {
+				return false
+			}
+		}
+		return true
+	}
+	n := 0
+	for _, fn := range c.RepoFunctions() {
+		if core.FnPkgPath(fn) != core.ModPath+"/"+pkgAlertSql {
+			continue
+		}
+		for _, b := range fn.Blocks {
+			for _, in := range b.Instrs {
+				mu, ok := in.(*ssa.MapUpdate)
+				if !ok {
+					continue
+				}
+				k, ok := core.ConstStringValue(mu.Key)
+				if !ok || (k != "last_sent_time" && k != "last_alert_state") {
+					continue
+				}
+				n++
+				construct := fmt.Sprintf("%s:%s-written-only-when-a-notification-was-sent", shortFn(fn), k)
+				r.Check(guarded(in, 0), "GUARD", construct, c.Pos(mu.Pos()),
+					"written only where the notification flag of UpdateAlertStateAndNotificationDetails is known true",
+					fmt.Sprintf("the notification row's %s is written although no notification was sent: shouldSendNotification reads it as the time/state of the last notification sent, so a Pending blip is followed by a spurious back-to-Normal notification, or the return-to-Normal notification is never sent", k))
+			}
+		}
+	}
+	r.Floor("GUARD", "writes of the notification row's last-sent columns", n, 2)
 }
 
 // ---------------------------------------------------------------------------------------------- (1)
